@@ -312,7 +312,7 @@ def rule_rule3(ctx, rep):
     fi = model.method('core_tokens.Delimiter', 'closed_by')
     unit = model.unit_of(fi)
     rep.instance('R-RULE3')
-    read = attrs_read_on_param(fi.node, fi.params()[1]) | attrs_read_on_param(fi.node, fi.params()[0])
+    read = delimiter_attrs_read(cls, fi)
     flags = [(a, b) for a in (False, True) for b in (False, True)]
     for (oc, cc), om, cm, of, cf in itertools.product([('*', '*'), ('_', '_'), ('*', '_'), ('_', '*')],
                                                       range(3), range(3), flags, flags):
@@ -342,7 +342,6 @@ def rule_rule3(ctx, rep):
                      'closed_by gives %s where rules 9/10 give %s' % (got, want), loc(unit, fi.node))
     rep.floor('R-RULE3', rep.rules['R-RULE3']['obligations'], 100)
     # provenance
-    read = attrs_read_on_param(fi.node, fi.params()[1]) | attrs_read_on_param(fi.node, fi.params()[0])
     rep.instance('R-RULE3-PROV')
     for name, m in cls.methods.items():
         if name == '__init__':
@@ -362,6 +361,24 @@ def rule_rule3(ctx, rep):
                                  loc(unit, n))
     if not any(s.get('rule') == 'R-RULE3-PROV' for s in rep.samples):
         rep.obligation('R-RULE3-PROV', True, {'attrs_read': sorted(read), 'writers_outside_init': []})
+
+
+def delimiter_attrs_read(cls, fi, seen=None):
+    """Data attributes of Delimiter objects that a method reads on its parameters, helpers of the class it calls
+    included (a predicate extracted into a method is followed, the method's own name is not a data attribute)."""
+    seen = set() if seen is None else seen
+    if fi.qualname in seen:
+        return set()
+    seen.add(fi.qualname)
+    out = set()
+    for pname in fi.params():
+        for a in attrs_read_on_param(fi.node, pname):
+            hit = cls.lookup(a)
+            if hit is not None and hit[0] == 'method':
+                out |= delimiter_attrs_read(cls, hit[1], seen)
+            else:
+                out.add(a)
+    return out
 
 
 def attrs_read_on_param(fnode, pname):
